@@ -148,7 +148,7 @@ impl Property for C09 {
                                         // classification: does the reference derivation of this goal go through a coinductive cycle?
                                         let class = if program_has_co_cycle(&case.pg.program) {
                                             "coinductive-cycle".to_string()
-                                        } else if case.pg.program.traits.iter().any(|t| t.extra > 0) && case.pg.program.traits.iter().any(|t| !t.supers.is_empty()) {
+                                        } else if env_existential(&case.pg.program) && (case.pg.program.traits.iter().any(|t| !t.supers.is_empty()) || case.pg.program.ctors.iter().any(|c| !c.wcs.is_empty())) {
                                             "env-with-trait-params".to_string()
                                         } else {
                                             feats.clone()
